@@ -1,6 +1,6 @@
 """C18 — Fragment splitting helpers respect bracket and quote nesting."""
 import itertools
-from pyvc.api import contract, Loop
+from pyvc.api import contract, lemma, Loop
 import specs.brackets  # noqa: F401
 
 LEVEL = 'proof'
@@ -15,14 +15,130 @@ contract(BLOCK, 'BlockParser._skip_other_block', 'C18',
 		'begin < result',
 		'result <= len(text)',
 		'result == len(text) or len(code_stack(text, other_tokens, begin, result)) == 0',
+		'all(len(code_stack(text, other_tokens, begin, j)) > 0 for j in range(begin + 1, result))',
 	],
 	loops={0: Loop(
 		invariant=[
 			'begin <= index', 'index <= len(text)',
 			'other_closes == code_stack(text, other_tokens, begin, index)',
-			'index > begin or len(other_closes) == 0',
+			'implies(index == begin, len(other_closes) == 0)',
+			'implies(index > begin, len(other_closes) > 0)',
+			'all(len(code_stack(text, other_tokens, begin, j)) > 0 for j in range(begin + 1, index))',
 		],
 		decreases='len(text) - index')},
+)
+
+
+
+@lemma('C18',
+	requires=['0 <= p', 'p < k', 'k <= len(text)', 'len(b0) == 1', 'len(b1) == 1', 'b0 != b1', 'text[p] == b0', 'depth(text, b0, b1, p) == 0',
+		'all(depth(text, b0, b1, j) >= 1 for j in range(p + 1, k + 1))'],
+	ensures=['open_begin(text, b0, b1, k) == p + 1'],
+	decreases='k - p')
+def lemma_open_begin(text: str, b0: str, b1: str, p: int, k: int):
+	"""Inside a group opened at p (depth stays >= 1) no later opener is met at depth 0: the open group still begins at p + 1."""
+	if k > p + 1:
+		lemma_open_begin(text, b0, b1, p, k - 1)
+
+
+contract(BLOCK, 'BlockParser.break_last_block', 'C18',
+	instantiate={'brackets': ['()', '[]', '<>', '{}']},
+	ghost_params={'p': 'int'},
+	raises={'IndexError': 'lg_end(text, brackets[0], brackets[1], len(text)) < 0'},
+	ensures=[
+		# code-derived: prefix and inside of the last complete top-level group
+		'result[0] == text[0:lg_begin(text, brackets[0], brackets[1], len(text)) - 1]',
+		'result[1] == text[lg_begin(text, brackets[0], brackets[1], len(text)):lg_end(text, brackets[0], brackets[1], len(text))]',
+		# Top (from the statement): text == P + b0 + G + b1 with P balanced (depth 0 at p) and G balanced inside the group  ==>  (P, G)
+		'implies(0 <= p and p + 2 <= len(text) and text[p] == brackets[0] and text[len(text) - 1] == brackets[1] and depth(text, brackets[0], brackets[1], p) == 0 '
+		'and all(depth(text, brackets[0], brackets[1], j) >= 1 for j in range(p + 1, len(text))) and depth(text, brackets[0], brackets[1], len(text) - 1) == 1, '
+		'result[0] == text[:p] and result[1] == text[p + 1:len(text) - 1])',
+	],
+	top=['implies(0 <= p'],
+	hints_exit=[
+		'implies(0 <= p and p + 2 <= len(text) and text[p] == brackets[0] and text[len(text) - 1] == brackets[1] and depth(text, brackets[0], brackets[1], p) == 0 '
+		'and all(depth(text, brackets[0], brackets[1], j) >= 1 for j in range(p + 1, len(text))) and depth(text, brackets[0], brackets[1], len(text) - 1) == 1, '
+		'lemma_open_begin(text, brackets[0], brackets[1], p, len(text) - 1))'],
+	loops={0: Loop(
+		invariant=[
+			'0 <= index', 'index <= len(text)',
+			'stack >= 0', 'stack == depth(text, brackets[0], brackets[1], index)',
+			'implies(stack >= 1, begin == open_begin(text, brackets[0], brackets[1], index))',
+			'(len(ranges) == 0) == (lg_end(text, brackets[0], brackets[1], index) < 0)',
+			'implies(len(ranges) > 0, last(ranges)[0] == lg_begin(text, brackets[0], brackets[1], index) and last(ranges)[1] == lg_end(text, brackets[0], brackets[1], index))',
+		],
+		decreases='len(text) - index')},
+)
+
+
+
+DELIMS = [',', '=', ' ', ':']
+
+
+@lemma('C18',
+	requires=['0 <= lo', 'lo <= hi', 'hi <= len(text)', 'len(code_stack(text, toks, 0, lo)) == 0'],
+	ensures=['code_stack(text, toks, 0, hi) == code_stack(text, toks, lo, hi)'],
+	decreases='hi - lo')
+def lemma_stack_restart(text: str, toks: str, lo: int, hi: int):
+	"""Scanning from a point where the stack is empty is the same as scanning from the start."""
+	if hi > lo:
+		lemma_stack_restart(text, toks, lo, hi - 1)
+
+
+@lemma('C18',
+	requires=['0 <= i', 'i < r', 'r <= len(text)', 'len(code_stack(text, toks, 0, i)) == 0', 'not is_cut(text, d, toks, i)',
+		'all(len(code_stack(text, toks, i, j)) > 0 for j in range(i + 1, r))'],
+	ensures=['blocks_upto(text, d, toks, r) == blocks_upto(text, d, toks, i)', 'seg_begin(text, d, toks, r) == seg_begin(text, d, toks, i)'],
+	decreases='r - i')
+def lemma_no_cuts(text: str, d: str, toks: str, i: int, r: int):
+	"""A skipped block [i, r) (stack empty at i, non-empty strictly inside) contains no cut: no block is added, the segment start stays."""
+	if r > i + 1:
+		lemma_no_cuts(text, d, toks, i, r - 1)
+		lemma_stack_restart(text, toks, i, r - 1)
+
+
+@lemma('C18',
+	requires=['0 <= a', 'a <= b', 'b < len(text)'],
+	ensures=['text[:a] + text[a:b] + text[b:b + 1] == text[:b + 1]'])
+def lemma_slice3(text: str, a: int, b: int):
+	"""Adjacent slices concatenate (pure string fact; cvc5 discharges it)."""
+	pass
+
+
+@lemma('C18',
+	requires=['0 <= n', 'n <= len(text)', 'len(d) == 1'],
+	ensures=['0 <= seg_begin(text, d, toks, n)', 'seg_begin(text, d, toks, n) <= n', 'raw_concat(text, d, toks, n) == text[:seg_begin(text, d, toks, n)]'],
+	decreases='n')
+def lemma_rejoin(text: str, d: str, toks: str, n: int):
+	"""T1: the raw segments, each followed by the delimiter, concatenate to the text up to the current segment start;
+	with n == len(text):  raw_concat + text[seg_begin:] == text  (the pieces rejoined with the delimiter give back the fragment)."""
+	if n > 0:
+		lemma_rejoin(text, d, toks, n - 1)
+		if is_cut(text, d, toks, n - 1):
+			lemma_slice3(text, seg_begin(text, d, toks, n - 1), n - 1)
+
+
+contract(BLOCK, 'BlockParser.break_separator', 'C18',
+	instantiate={'delimiter': DELIMS},
+	consts={'TOKS12': TOKS12, 'OPEN': '[({<"\''},
+	ensures=[
+		# code == spec: exactly the cuts at delimiters of code-level depth 0, segments stripped of blanks, empty last segment omitted
+		'result == blocks_upto(text, delimiter, TOKS12, len(text)) + ([text[seg_begin(text, delimiter, TOKS12, len(text)):].strip(" ")] if seg_begin(text, delimiter, TOKS12, len(text)) < len(text) else [])',
+	],
+	raises={},  # T3: no exception for any text
+	loops={0: Loop(
+		invariant=[
+			'0 <= index', 'index <= len(text)',
+			'index == len(text) or len(code_stack(text, TOKS12, 0, index)) == 0',
+			'blocks == blocks_upto(text, delimiter, TOKS12, index)',
+			'begin == seg_begin(text, delimiter, TOKS12, index)',
+			'begin <= index',
+		],
+		decreases='len(text) - index',
+		hints_end=[
+			'lemma_stack_restart(text, TOKS12, old(index), index)',
+			'implies(text[old(index)] in OPEN, lemma_no_cuts(text, delimiter, TOKS12, old(index), index))',
+		])},
 )
 
 ALPHA = 'a,()[]<>{}"\' :='
@@ -41,4 +157,20 @@ def gen_skip(rnd, tier):
 			yield {'text': t, 'other_tokens': rnd.choice([TOKS12] + TOKS10), 'begin': rnd.randrange(len(t))}
 
 
-TWINS = {'BlockParser._skip_other_block': gen_skip}
+def gen_last_block(rnd, tier):
+	for t in _texts(rnd, tier):
+		br = rnd.choice(['()', '[]', '<>', '{}'])
+		yield {'text': t, 'brackets': br, 'p': rnd.randint(-1, len(t))}
+		# shaped inputs: P + b0 + G + b1
+		g = ''.join(rnd.choice('a,' + br) for _ in range(rnd.randint(0, 4)))
+		t2 = t + br[0] + g + br[1]
+		yield {'text': t2, 'brackets': br, 'p': len(t)}
+
+
+def gen_break_sep(rnd, tier):
+	for t in _texts(rnd, tier):
+		yield {'text': t, 'delimiter': rnd.choice(DELIMS)}
+		yield {'text': t + rnd.choice('([{<') + t[::-1] + rnd.choice(')]}>') + t, 'delimiter': rnd.choice(DELIMS)}
+
+
+TWINS = {'BlockParser._skip_other_block': gen_skip, 'BlockParser.break_last_block': gen_last_block, 'BlockParser.break_separator': gen_break_sep}
